@@ -559,8 +559,10 @@ class Registries:
         if init is None:
             raise AnchorError("RendererHTML.__init__ not found")
         src = U(init.node)
-        if "inspect.getmembers" not in src or "startswith('render')" not in src or "startswith('_')" not in src:
-            raise AnchorError("RendererHTML.__init__ does not build the rule table in the recognised form")
+        consts = {n.value for n in ast.walk(init.node) if isinstance(n, ast.Constant) and isinstance(n.value, str)}
+        if "getmembers" not in src or "startswith" not in src or not {"render", "_"} <= consts or "rules" not in src:
+            raise AnchorError("RendererHTML.__init__ does not build the rule table in the recognised form (members of the instance "
+                              "whose names do not start with 'render' or '_')")
         return {n: f for n, f in ci.methods.items() if not (n.startswith("render") or n.startswith("_"))}
 
     def all_rule_funcs(self) -> list[RuleReg]:
